@@ -33,7 +33,7 @@ NS_WRITERS = VETO_KINDS | {'netlist_remove_library', 'library_remove_definition'
                            'create_netlist', 'create_library', 'create_definition', 'create_port', 'create_cable', 'create_instance'}
 REF_TARGET = {'_netlist': ['Netlist'], '_library': ['Library'], '_definition': ['Definition'], '_parent': ['Definition'],
               '_port': ['Port'], '_cable': ['Cable'], '_wire': ['Wire'], '_reference': ['Definition'], '_top_instance': ['Instance']}
-WELL_TYPED_EXITS = ('normal', 'AssertionError', 'ValueError', 'RuntimeError', 'KeyError')
+WELL_TYPED_EXITS = ('normal', 'AssertionError', 'ValueError', 'RuntimeError', 'KeyError')   # 'ValueError@hook' is a veto: exempt from B2
 
 
 def mk_ghost(ctx, tag='0'):
@@ -80,7 +80,9 @@ class Inv:
             out.append(('C01', 'T' + f, fa(['x'], lambda x, f=f, owners=owners, targets=targets:
                         Implies(isC(x, *owners), Or(h[f][x] == c.null, isC(h[f][x], *targets))), lambda x, f=f: h[f][x])))
         for f in ('_instance', '_inner_pin'):
-            out.append(('C01', 'T' + f, fa(['x'], lambda x, f=f: Implies(isC(x, 'OuterPin'), A[h[f][x]]), lambda x, f=f: h[f][x])))
+            # documented argument types of OuterPin(instance, inner_pin): neither is itself an OuterPin
+            out.append(('C01', 'T' + f, fa(['x'], lambda x, f=f: Implies(isC(x, 'OuterPin'), And(A[h[f][x]], Not(c.isa(h[f][x], 'OuterPin')))),
+                                           lambda x, f=f: h[f][x])))
         # I1: containment, one clause per relation
         for (C_, lf, E_, pf, _a, _r) in REL:
             out.append(('C01', 'I1.' + lf, fa(['k', 'e'], lambda k, e, C_=C_, lf=lf, E_=E_, pf=pf:
@@ -118,7 +120,7 @@ class Inv:
                                                  lambda x, k: h['dhas'][x][k], sorts=[c.Ref, c.Key])))
         out.append(('frame._data.values', c.forall(['x', 'k'], lambda x, k: Implies(And(h0['alloc'][x], h0['dhas'][x][k]),
                                                    h['dval'][x][k] == h0['dval'][x][k]), lambda x, k: h['dval'][x][k], sorts=[c.Ref, c.Key])))
-        out.append(('frame.name-tables', h['ns'] == h0['ns']))
+        out.append(('frame.name-tables', c.forall(['x'], lambda x: Implies(h0['alloc'][x], h['ns'][x] == h0['ns'][x]), lambda x: h['ns'][x])))
         out.append(('frame.policy', h['nsdefault'] == h0['nsdefault']))
         return out
 
@@ -173,7 +175,7 @@ class IRSpec:
 
     def exc_matches(self, kind, tname):
         if tname in ('Exception', 'BaseException'): return True
-        return kind == tname
+        return kind.split('@')[0] == tname
 
     # ---------------------------------------------------------------- allocation
     def new_object(self, se, st, cname):
@@ -396,7 +398,35 @@ class IRSpec:
         return se.ev(st, gen.iter, k)
 
     def contract_for(self, se, st, fi):
+        """modular call: constructors of the data-carrying classes are used through their (separately proved) contract
+        when they are called from another function under verification"""
+        if fi.name == '__init__' and fi.cls in CTOR_CONTRACT and len(st.frames) >= 1:
+            return self.ctor_contract
         return None
+
+    def ctor_contract(self, se, st, fi, args, kw, cont):
+        """Contract of <Class>.__init__ (obligations 'ctor.*' of POSTS prove it against the real body):
+        the fresh object gets null/empty structural fields, arbitrary scalars and data, its own name table;
+        nothing else changes; exits: normal, ValueError@hook (naming rules), TypeError (Port direction)."""
+        c = self.ctx; h = st.heap; r = args[0][1]; cls_ = fi.cls
+        for f, (owners, kind) in FIELDS.items():
+            if cls_ not in owners: continue
+            if kind == 'ref': h[f] = Store(h[f], r, c.null)
+            elif kind == 'list':
+                t, facts = c.L_empty(); st.pc += facts; h[f] = Store(h[f], r, t)
+            elif kind == 'set': h[f] = Store(h[f], r, K(c.Ref, False))
+            elif kind == 'val': h[f] = Store(h[f], r, c.fresh('scalar', c.Ref))
+        if cls_ == 'Instance': h['okeys'] = Store(h['okeys'], r, K(c.Ref, False))
+        dh = c.fresh('dh', h['dhas'][r].sort()); dv = c.fresh('dv', h['dval'][r].sort())
+        h['dhas'] = Store(h['dhas'], r, dh); h['dval'] = Store(h['dval'], r, dv)
+        h['ns'] = Store(h['ns'], r, c.fresh('nsv', h['ns'].sort().range()))
+        td = c.fresh('td', h['t:data'][r].sort()); lh = c.fresh('lh', h['lh:data'][r].sort()); lvv = c.fresh('lv', h['lv:data'][r].sort())
+        k = Const('kq_ct', c.Key)
+        st.pc.append(ForAll([k], Implies(td[k], And(dh[k] == lh[k], Implies(lh[k], dv[k] == lvv[k]))), patterns=[td[k]]))
+        h['t:data'] = Store(h['t:data'], r, td); h['lh:data'] = Store(h['lh:data'], r, lh); h['lv:data'] = Store(h['lv:data'], r, lvv)
+        for kind_ in (['ValueError@hook'] + (['TypeError'] if cls_ == 'Port' else [])):
+            sv = st.fork(); se.exit(sv, kind_)
+        cont(st, se.none())
 
     # ---------------------------------------------------------------- callbacks (listener models + ghost announcements)
     def callback(self, se, st, kind, args, cont):
@@ -415,18 +445,19 @@ class IRSpec:
         elif kind in ('wire_connect_pin', 'wire_disconnect_pin'):
             w, p = a[1], args[1]
             if p[0] == 'ref':
-                T = c.fresh('touched_wire', ArraySort(c.Ref, BoolSort())); L = c.fresh('last_wire', ArraySort(c.Ref, c.Ref))
-                y = Const('yq_cb', c.Ref)
-                oldT, oldL = h['t:wire'], h['l:wire']
-                hcopy = dict(h)
-                eqp = lambda yy: se.eq(st, yy, p[1])
+                # the subject of the announcement is the real pin: an inner pin, or the outer pin stored under p's key
+                isop = c.isa(p[1], 'OuterPin')
+                inst, q = h['_instance'][p[1]], h['_inner_pin'][p[1]]
+                subj = se.name_term(st, If(isop, h['ovals'][inst][q], p[1]))
+                valid = se.name_term(st, If(isop, And(c.isa(inst, 'Instance'), h['okeys'][inst][q]), BoolVal(True)))
+                cur = If(h['t:wire'][subj], h['l:wire'][subj], h['_wire'][subj])
                 if kind == 'wire_connect_pin':
-                    st.pc.append(ForAll([y], And(T[y] == Or(oldT[y], eqp(y)), L[y] == If(eqp(y), w, oldL[y])), patterns=[T[y], L[y]]))
+                    newlast = se.name_term(st, If(valid, w, h['l:wire'][subj]))
                 else:
-                    curw = lambda yy: If(oldT[yy], oldL[yy], hcopy['_wire'][yy])
-                    st.pc.append(ForAll([y], And(T[y] == Or(oldT[y], eqp(y)),
-                                                 L[y] == If(eqp(y), If(curw(y) == w, c.null, curw(y)), oldL[y])), patterns=[T[y], L[y]]))
-                h['t:wire'], h['l:wire'] = T, L
+                    newlast = se.name_term(st, If(valid, If(cur == w, c.null, cur), h['l:wire'][subj]))
+                newt = se.name_term(st, If(valid, BoolVal(True), h['t:wire'][subj]))
+                h['l:wire'] = Store(h['l:wire'], subj, newlast)
+                h['t:wire'] = Store(h['t:wire'], subj, newt)
         elif kind == 'instance_reference':
             i, v = a[1], args[1]
             if v[0] == 'ref':
@@ -445,13 +476,25 @@ class IRSpec:
                 h['lh:data'] = Store(h['lh:data'], e_, Store(h['lh:data'][e_], k_, False))
         # exits: an arbitrary observer may veto (C19 model); the stock listener may refuse by ValueError (C01/C02/C14 model)
         if self.listener in ('both', 'observers') and not kind.startswith('create_'):
-            # arbitrary vetoing observers: nothing is demanded at such an exit (C19 B2 exempts it, C01/C02/C14 are stated for
-            # the stock listener), so the fork is only taken when explicitly asked for
             sv = st.fork(); se.exit(sv, 'ListenerVeto')
         if kind in VETO_KINDS:
-            sv = st.fork(); se.exit(sv, 'ValueError')
+            sv = st.fork(); se.exit(sv, 'ValueError@hook')
         if kind in NS_WRITERS:
-            st.heap['ns'] = c.fresh('ns', st.heap['ns'].sort())
+            NsS = h['ns'].sort().range()
+            newv = c.fresh('nsv', NsS)
+            if kind.startswith('create_'):
+                P = a[1]; val = newv
+            elif kind.startswith('dictionary_'):
+                e_ = a[1]
+                P = se.name_term(st, If(c.isa(e_, 'Library'), h['_netlist'][e_], If(c.isa(e_, 'Definition'), h['_library'][e_],
+                                 If(c.isa(e_, 'Port', 'Cable'), h['_definition'][e_], If(c.isa(e_, 'Instance'), h['_parent'][e_], c.null)))))
+                k_ = se.to_key(st, args[1])
+                touches = And(P != c.null, Or(k_ == c.KEY_NAME, k_ == c.KEY_EDIF))
+                if kind != 'dictionary_set': touches = And(touches, h['dhas'][e_][k_])
+                val = se.name_term(st, If(touches, newv, h['ns'][P]))
+            else:
+                P = a[1]; val = newv
+            st.heap['ns'] = Store(h['ns'], P, val)
         if kind.startswith('create_'):
             # stock hook: element['.NS'] = default (through the real __setitem__, which announces dictionary_set)
             e_ = a[1]
@@ -498,7 +541,8 @@ class IRSpec:
             if self.is_fresh(st, owner): goal = Or(goal, new == c.null)
             return self._cover(se, st, field, goal)
         if field == '_wire':
-            return self._cover(se, st, field, And(h['t:wire'][owner], h['l:wire'][owner] == new))
+            # only real pins (inner pins, stored outer pins) are part of the mirrored state; a look-alike OuterPin is not
+            return self._cover(se, st, field, Implies(self.inv.realpin(h, owner), And(h['t:wire'][owner], h['l:wire'][owner] == new)))
         if field == '_reference':
             return self._cover(se, st, field, And(h['t:ref'][owner], h['l:ref'][owner] == new))
         if field == '_top_instance':
@@ -583,7 +627,7 @@ class IRSpec:
             a = 'par:' + r[1]; pf = r[3]; E_ = r[2]
             out.append(('in-vain.' + r[1], c.forall(['x'], lambda x, a=a, pf=pf, E_=E_: Implies(And(h['t:' + a][x], c.isa(x, E_)),
                         h[pf][x] == h['l:' + a][x]), lambda x, a=a: h['t:' + a][x])))
-        out.append(('in-vain.wire', c.forall(['x'], lambda x: Implies(And(h['t:wire'][x], c.isa(x, 'InnerPin', 'OuterPin')),
+        out.append(('in-vain.wire', c.forall(['x'], lambda x: Implies(And(h['t:wire'][x], self.inv.realpin(h, x)),
                     h['_wire'][x] == h['l:wire'][x]), lambda x: h['t:wire'][x])))
         out.append(('in-vain.reference', c.forall(['x'], lambda x: Implies(And(h['t:ref'][x], c.isa(x, 'Instance')),
                     h['_reference'][x] == h['l:ref'][x]), lambda x: h['t:ref'][x])))
@@ -601,7 +645,7 @@ class IRSpec:
         key = id(fi.node)
         if key not in getattr(self, '_ords', {}):
             if not hasattr(self, '_ords'): self._ords = {}
-            self._ords[key] = {id(n): i for i, n in enumerate([n for n in ast.walk(fi.node) if isinstance(n, (ast.For, ast.While))])}
+            self._ords[key] = {id(n): i for i, n in enumerate(sorted([n for n in ast.walk(fi.node) if isinstance(n, (ast.For, ast.While))], key=lambda n: (n.lineno, n.col_offset)))}
         return self._ords[key][id(node)]
 
     def loop(self, se, st, node, nxt, k_ret, k_brk, k_cnt):
@@ -753,3 +797,36 @@ class IRSpec:
             return
         raise Unsupported('loop target')
 POSTS = {}
+CTOR_CONTRACT = ('Netlist', 'Library', 'Definition', 'Port', 'Cable', 'Instance')
+
+
+def ctor_post(ctx, spec, h0, s, ekind, args, val):
+    """proves the constructor contract used by ctor_contract: own fields initialised (normal exit), nothing else touched (every exit)"""
+    c = ctx; h = s.heap; r = args[0][1]; out = []
+    cls_ = [k for k in CTOR_CONTRACT if s.frames == [] or True][0]
+    fa = c.forall
+    # frame over everything but the new object, at every exit
+    for f, (owners, kind) in FIELDS.items():
+        if kind in ('ref', 'val', 'list', 'set'):
+            out.append(('C14', 'ctor.frame.' + f, fa(['x'], lambda x, f=f: Implies(x != r, h[f][x] == h0[f][x]), lambda x, f=f: h[f][x])))
+    for f in ('okeys', 'ovals', 'dhas', 'dval', 'ns', 't:data', 'lh:data', 'lv:data'):
+        out.append(('C14', 'ctor.frame.' + f, fa(['x'], lambda x, f=f: Implies(x != r, h[f][x] == h0[f][x]), lambda x, f=f: h[f][x])))
+    for a in ATTRS:
+        out.append(('C19', 'ctor.ghost.' + a, And(h['t:' + a] == h0['t:' + a], h['l:' + a] == h0['l:' + a])))
+    out.append(('C14', 'ctor.alloc', fa(['x'], lambda x: h['alloc'][x] == Or(h0['alloc'][x], x == r), lambda x: h['alloc'][x])))
+    if ekind == 'normal':
+        for f, (owners, kind) in FIELDS.items():
+            own = [o for o in owners if o in CTOR_CONTRACT]
+            if not own: continue
+            guard = c.isa(r, *own)
+            if kind == 'ref': out.append(('C01', 'ctor.init.' + f, Implies(guard, h[f][r] == c.null)))
+            elif kind == 'list':
+                out.append(('C01', 'ctor.init.' + f, Implies(guard, And(fa(['y'], lambda y, f=f: c.cnt(h[f][r], y) == 0, lambda y, f=f: c.cnt(h[f][r], y)),
+                                                                        c.len(h[f][r]) == 0))))
+            elif kind == 'set': out.append(('C02', 'ctor.init.' + f, Implies(guard, fa(['y'], lambda y, f=f: Not(h[f][r][y]), lambda y, f=f: h[f][r][y]))))
+        out.append(('C02', 'ctor.init._opins', Implies(c.isa(r, 'Instance'), fa(['y'], lambda y: Not(h['okeys'][r][y]), lambda y: h['okeys'][r][y]))))
+    return out
+
+
+for _c in CTOR_CONTRACT:
+    POSTS['%s.__init__' % _c] = ctor_post
